@@ -13,5 +13,5 @@ for d in $INC/*/; do
     echo "$P-$TAG$k $patch $d/demo_$k.py"
   done
 done > /tmp/confirm/todo.txt
-cat /tmp/confirm/todo.txt | xargs -P 4 -L 1 bash -c 'tools/confirm_mutant.sh $0 $1 $2 > /tmp/confirm/results/$0.out 2>&1'
+cat /tmp/confirm/todo.txt | xargs -P ${PAR:-4} -L 1 bash -c 'tools/confirm_mutant.sh $0 $1 $2 > /tmp/confirm/results/$0.out 2>&1'
 echo BATCH_DONE
